@@ -276,6 +276,50 @@ def run_cli_profile(tokens, cuts=()):
     return doc, text, err
 
 
+def genotype_route(r):
+    """route `genotype(..., **params)` / `--param` on a genotyping run: the values given must be in force when the sample is
+    READ (several parameters are consumed by the reader: sample column of a VCF, read filters of the realigner, long-read
+    switches, neutral value), not only afterwards. The profile handed to the sample reader is inspected at that moment"""
+    from aldy import sam as samm
+    from aldy.genotype import genotype
+    from aldy.profile import Profile
+    from aldy.common import AldyException
+    why = []
+    vcf = os.path.join(lib.REPO, "aldy/tests/resources/NA07000_SLCO1B1.vcf.gz")
+    sets = [{"vcf_sample_idx": 0, "min_mapq": r.choice([3, 7, 30]), "min_quality": r.choice([1, 5, 20]), "display_format": True},
+            {"vcf_sample_idx": "0", "neutral_value": r.choice([1.5, 2.5]), "indelpost": False, "sam_long_reads": r.choice([True, False]), "max_minor_solutions": 2}]
+    orig = samm.Sample.__init__
+    n = 0
+    for params in sets:
+        seen = {}
+
+        def spy(self, gene, profile, *a, **kw):
+            if profile is not None:
+                seen.update({k: getattr(profile, k) for k in params})
+            return orig(self, gene, profile, *a, **kw)
+
+        samm.Sample.__init__ = spy
+        try:
+            try:
+                import logbook
+                with logbook.NullHandler().applicationbound():
+                    genotype("slco1b1", vcf, None, output_file=None, genome="hg19", **params)
+            except AldyException:
+                pass
+        finally:
+            samm.Sample.__init__ = orig
+        n += 1
+        want = Profile("expected", **params)
+        for k in params:
+            if k not in seen:
+                why.append(f"genotype(**{params}): the sample reader was handed no profile")
+                break
+            if seen[k] != getattr(want, k):
+                why.append(f"genotype(**params) with {k}={params[k]!r}: when the sample is read the profile still says {k}={seen[k]!r} (expected {getattr(want, k)!r})")
+                break
+    return why, n
+
+
 def tie(ctx):
     r = lib.rng("c18")
     quick = ctx["tier"] == "quick"
@@ -461,6 +505,10 @@ def tie(ctx):
             fam["cli_profile"]["disagreements"].append({"why": f"profile written with {toks} reloads with {bad[0]}={loaded[bad[0]]}, model says {mv[bad[0]]}", "input": inp})
             violations.append({"why": f"profile written by the profile command with {toks} and loaded again carries {bad[0]}={loaded[bad[0]][1]!r} instead of {mv[bad[0]][1]!r}", "input": inp, "signature": "c18:roundtrip"})
         stats["cli_roundtrips"] += 1
+    gw, gn = genotype_route(r)
+    stats["genotype_route_runs"] = gn
+    for w in gw[:1]:
+        violations.append({"why": w, "input": {"route": "genotype(**params)"}, "signature": "c18:genotype_route_value_not_in_force_when_sample_is_read"})
     return {"families": fam, "violations": violations, "evaluations": len(cases) + len(cli), "distinct_nontrivial": len(distinct),
             "rule": "every parameter x every documented spelling class (booleans: true/false any case, 1/0, native; numbers: decimal literals with sign/underscore/exponent; malformed; None) + unknown names + random multi-parameter updates, through Profile.update, through Profile.load(gene, file with an options section, **explicit parameters) and through `aldy profile --param` -> YAML -> Profile.load; distinct by hash",
             "samples": samples, "stats": dict(stats)}
